@@ -92,8 +92,13 @@ def whyInvalid (acr : String) (ck : Nat) (s : St) (now : Int) : String :=
   else if expired s now then "expired" else if !(acr = "" || acrAtLeast acr s.sacr) then "acr" else "?"
 
 def check (x : Step) : List (String × String) :=
-  let pre := x.pre
-  let post := x.post
+  -- the session's end as the PROPERTY defines it: creation + configured maximum lifetime, whatever end the record itself claims (a refresh that moved the
+  -- stored end forward must not make the session count as live)
+  let cap := fun (s : St) => if x.maxlife > 0 && s.st == 1 && decide (s.created + x.maxlife < s.ends) then { s with ends := s.created + x.maxlife } else s
+  let preRaw := x.pre
+  let postRaw := x.post
+  let pre := cap preRaw
+  let post := cap postRaw
   let now := x.now
   let wrote := x.upauth.startsWith "w:"
   let wname := (x.upauth.drop 2).toString
@@ -119,7 +124,8 @@ def check (x : Step) : List (String × String) :=
     (x.ck == 1 && pre.st == 1 && idle pre now && (x.op == "refresh" || x.op == "fwdauth") && x.status != 401 && !(x.op == "fwdauth" && x.status == 404),
       "C06.status.inactive", s!"{x.op} answered {x.status} for an inactive session"),
     (pre.st == 1 && (ended pre now || idle pre now) && x.contacted > 0, "C06.refreshed_when_idle", "provider contacted for an ended / inactive session"),
-    (pre.st == 1 && post.st == 1 && pre.sid == post.sid && (post.ends != pre.ends || post.created != pre.created), "C06.end_moved", "session end / creation time changed"),
+    (preRaw.st == 1 && postRaw.st == 1 && preRaw.sid == postRaw.sid && (postRaw.ends != preRaw.ends || postRaw.created != preRaw.created), "C06.end_moved", "session end / creation time changed"),
+    (postRaw.st == 1 && x.maxlife > 0 && decide ((postRaw.ends - (postRaw.created + x.maxlife)).natAbs > 2000000000), "C06.end_moved", "stored session end is not creation + maximum lifetime"),
     (x.granted > 0 && post.st == 1 && x.inact > 0 && !(decide (post.timeout - now ≤ x.inact + 2 * second) && decide (post.timeout - now ≥ x.inact - 2 * second) && decide (post.expire ≤ post.timeout)),
       "C06.accepted_after_idle", "refresh did not re-arm the inactivity timeout to now + timeout"),
     (post.st == 1 && x.inact == 0 && post.timeout != 0, "C06.accepted_after_idle", "timeout armed although inactivity is off"),
